@@ -98,6 +98,14 @@ TEMPLATES = {
                    '--laplace-load-a=%s,%s' % (N(v['a0']), N(v['a1'])), '--laplace-load-b=%s,%s' % (N(v['b0']), N(v['b1'])),
                    '--attach-load=1,1', '--attach-load=2,all,2', '--attach-load=3,all', '--attach-load=4,3'], False,
         lambda c, v: []),
+    'mixed-loads-out-of-order': (
+        # lumped loads of different kinds, attached in another order than the parser's numbering (--load, --rlc-load, --trap-load, Laplace)
+        dict(f=('r', 1, 100), Z=('c',), R=('r', 1e-3, 1e6), L=('r', 1e-9, 1e-3), Cc=('r', 1e-13, 1e-6), b0=('r', -10, 10), a0=('r', 0.1, 10)),
+        lambda v: ['-f', N(v['f']), '-w', W1, '-w', W2, '--excitation-pulse=2', '--load=' + C(v['Z']),
+                   '--rlc-load=%s,%s,%s' % (N(v['R']), N(v['L']), N(v['Cc'])), '--trap-load=%s,%s,%s' % (N(v['R']), N(v['L']), N(v['Cc'])),
+                   '--laplace-load-a=%s,1' % N(v['a0']), '--laplace-load-b=%s,2' % N(v['b0']),
+                   '--attach-load=4,1', '--attach-load=2,3', '--attach-load=1,4', '--attach-load=3,all,2'], False,
+        lambda c, v: []),
     'media': (
         dict(f=('r', 1, 100), e1=('r', 1, 80), g1=('r', 1e-4, 10), e2=('r', 1, 80), g2=('r', 1e-4, 10), h2=('r', -10, 10),
              u1=('r', 1, 1000), rr=('r', 1e-4, 0.01)),
@@ -328,7 +336,7 @@ def main(args):
     ck = Check('C15', args)
     ck.shadow_stats = symx.load().stats
     names = list(TEMPLATES) if ck.tier == 'thorough' else ['source-1V-neighbour', 'tags+taper+bygeo', 'skin-per-tag', 'rlc+trap+laplace',
-                                                         'media', 'media3', 'transforms']
+                                                         'media', 'media3', 'transforms', 'mixed-loads-out-of-order']
     run_parallel(ck, 'checks.c15', [('roundtrip', (n,)) for n in names])
     ck.assumptions += ['argument lists are built from the listed templates; every numeric field of a template is an arbitrary value in '
                        'its stated range; geometry coordinates are concrete',
